@@ -16,6 +16,7 @@ import (
 	"io"
 	"net"
 	"os"
+	"strings"
 	"sync"
 	"sync/atomic"
 	"testing"
@@ -38,7 +39,9 @@ type c09Op struct {
 }
 
 type c09Case struct {
-	ID     int      `json:"id"`
+	ID      int      `json:"id"`
+	Retries int      `json:"retries"`           // how many times the history was re-run because a harness wait expired
+	Expired []string `json:"expired,omitempty"` // the waits that expired in the abandoned attempts
 	Caps   []int    `json:"caps"` // slots per class
 	Sizes  []int    `json:"slice_sizes"`
 	QCap   int      `json:"qcap"`
@@ -152,6 +155,10 @@ func (w *c09World) stream(e, sid int) *Stream {
 	return p[e]
 }
 
+// every wait of the harness polls up to this bound; a history in which a wait expires is re-run from
+// scratch (fresh sessions, same seed) up to 2 more times before anything is reported
+const c09WaitBound = 60 * time.Second
+
 func c09PendLen(s *Stream) int {
 	s.pendingData.Lock()
 	n := len(s.pendingData.unread)
@@ -248,7 +255,7 @@ func (w *c09World) opWrite(c *c09Case, e, sid, n int, prealloc bool) {
 // wait until the queue towards the peer of e has been drained by the peer's event loop
 func (w *c09World) drained(e int) bool {
 	q := w.sess(e).queueManager.sendQueue
-	return c09Wait(func() bool { return q.size() == 0 && !q.consumerIsWorking() }, 10*time.Second)
+	return c09Wait(func() bool { return q.size() == 0 && !q.consumerIsWorking() }, c09WaitBound)
 }
 
 func (w *c09World) opFlush(c *c09Case, e, sid int) {
@@ -291,13 +298,13 @@ func (w *c09World) opFlush(c *c09Case, e, sid int) {
 	case had && wasFb:
 		w.feat["fallback-flush"] = true
 		// the fallback event travels over the socket: wait until the peer's event loop has handled it
-		if !c09Wait(func() bool { return atomic.LoadUint64(&peerSess.stats.fallbackReadCount) > fbBefore }, 10*time.Second) {
-			w.fatal = "flush: the fallback data did not reach the peer within 10 s"
+		if !c09Wait(func() bool { return atomic.LoadUint64(&peerSess.stats.fallbackReadCount) > fbBefore }, c09WaitBound) {
+			w.fatal = "flush: the fallback data did not reach the peer within the bound"
 		}
 		if peerPend >= 0 {
-			c09Wait(func() bool { return c09PendLen(peerStream) > peerPend }, 10*time.Second)
+			c09Wait(func() bool { return c09PendLen(peerStream) > peerPend }, c09WaitBound)
 		} else if e == 0 {
-			c09Wait(func() bool { return w.server.getStreamById(uint32(sid)) != nil }, 10*time.Second)
+			c09Wait(func() bool { return w.server.getStreamById(uint32(sid)) != nil }, c09WaitBound)
 			time.Sleep(time.Millisecond)
 		} else {
 			time.Sleep(2 * time.Millisecond)
@@ -306,7 +313,7 @@ func (w *c09World) opFlush(c *c09Case, e, sid int) {
 		w.feat["queue-full"] = true
 	case had && err == nil:
 		if !w.drained(e) {
-			w.fatal = "flush: the peer did not drain the queue within 10 s"
+			w.fatal = "flush: the peer did not drain the queue within the bound"
 		}
 	}
 	w.rec(c, c09Op{Op: "flush", E: e, Sid: sid, Sizes: sizes, Wpos: wpos, Err: es})
@@ -398,12 +405,12 @@ func (w *c09World) opClose(c *c09Case, e, sid int) {
 	}
 	if wasOpen {
 		if !qfull && !w.drained(e) {
-			w.fatal = "close: the peer did not drain the queue within 10 s"
+			w.fatal = "close: the peer did not drain the queue within the bound"
 		}
 		// the peer's stream (if it exists and is still open) becomes half-closed
 		ps := w.stream(1-e, sid)
 		if ps != nil && !w.closed[[2]int{1 - e, sid}] {
-			c09Wait(func() bool { return !ps.IsOpen() }, 10*time.Second)
+			c09Wait(func() bool { return !ps.IsOpen() }, c09WaitBound)
 		}
 	}
 	w.rec(c, c09Op{Op: "close", E: e, Sid: sid})
@@ -477,7 +484,7 @@ func (w *c09World) opInject(c *c09Case, toSrv bool, sid, n int) {
 func (w *c09World) opWake(c *c09Case, e int) {
 	w.sess(e).wakeUpPeer()
 	if !w.drained(e) {
-		w.fatal = "wake: the peer did not drain the queue within 10 s"
+		w.fatal = "wake: the peer did not drain the queue within the bound"
 	}
 	time.Sleep(time.Millisecond)
 	w.rec(c, c09Op{Op: "poll", E: 1 - e})
@@ -685,6 +692,44 @@ func (w *c09World) finish(c *c09Case) {
 	}
 }
 
+// one attempt at one history on a fresh session pair; returns the case and the wait that expired ("" = none)
+func c09RunJob(id, sub, qcap int, seed uint64, nops int) (c c09Case, fatal string) {
+	c = c09Case{ID: id, QCap: qcap}
+	defer func() {
+		if e := recover(); e != nil {
+			fatal = fmt.Sprintf("panic: %v", e)
+		}
+	}()
+	cl, sv, err := c09Pair(id, uint32(qcap))
+	if err != nil {
+		return c, "setup failed: " + err.Error()
+	}
+	defer func() {
+		cl.Close()
+		sv.Close()
+	}()
+	w := &c09World{client: cl, server: sv, bm: cl.bufferManager, streams: map[int][2]*Stream{},
+		closed: map[[2]int]bool{}, feat: map[string]bool{}}
+	b := 0
+	for _, l := range w.bm.lists {
+		w.base = append(w.base, b)
+		b += int(*l.cap)
+		c.Caps = append(c.Caps, int(*l.cap))
+		c.Sizes = append(c.Sizes, int(*l.capPerBuffer))
+	}
+	if sub >= 0 {
+		c09Directed(w, &c, sub)
+	} else {
+		c09History(w, newVrand(seed), &c, nops)
+	}
+	w.finish(&c)
+	c.Oracle = w.oracle
+	for f := range w.feat {
+		c.Feat = append(c.Feat, f)
+	}
+	return c, w.fatal
+}
+
 func TestVerif_C09(t *testing.T) {
 	seed := uint64(venvInt("VERIF_SEED", 1))
 	n := venvInt("VERIF_N", 40)
@@ -711,44 +756,30 @@ func TestVerif_C09(t *testing.T) {
 		go func(k int, j job) {
 			defer wg.Done()
 			defer func() { <-sem }()
-			c := c09Case{ID: j.id, QCap: j.qcap}
-			defer func() {
-				if e := recover(); e != nil {
-					c.Note += fmt.Sprintf(" HARNESS: panic: %v", e)
-					results[k] = c
+			var expired []string
+			for attempt := 0; ; attempt++ {
+				c, fatal := c09RunJob(j.id, j.sub, j.qcap, j.seed, nops)
+				c.Retries = attempt
+				c.Expired = expired
+				if fatal != "" && attempt < 2 {
+					expired = append(expired, fatal)
+					continue
 				}
-			}()
-			cl, sv, err := c09Pair(j.id, uint32(j.qcap))
-			if err != nil {
-				c.Note = "HARNESS: setup failed: " + err.Error()
+				if fatal != "" {
+					// the same wait expired in three independent runs of this history: a property-relevant
+					// observation (something never happens), reported by the oracle - or a harness problem
+					switch {
+					case strings.Contains(fatal, "did not drain the queue"):
+						c.Oracle = append(c.Oracle, "C09:peer-never-drains-queue|in 3 of 3 runs of this history "+fatal)
+					case strings.Contains(fatal, "did not reach the peer"):
+						c.Oracle = append(c.Oracle, "C09:fallback-data-never-reaches-peer|in 3 of 3 runs of this history "+fatal)
+					default:
+						c.Note += " HARNESS: " + fatal
+					}
+				}
 				results[k] = c
 				return
 			}
-			w := &c09World{client: cl, server: sv, bm: cl.bufferManager, streams: map[int][2]*Stream{},
-				closed: map[[2]int]bool{}, feat: map[string]bool{}}
-			b := 0
-			for _, l := range w.bm.lists {
-				w.base = append(w.base, b)
-				b += int(*l.cap)
-				c.Caps = append(c.Caps, int(*l.cap))
-				c.Sizes = append(c.Sizes, int(*l.capPerBuffer))
-			}
-			if j.sub >= 0 {
-				c09Directed(w, &c, j.sub)
-			} else {
-				c09History(w, newVrand(j.seed), &c, nops)
-			}
-			w.finish(&c)
-			if w.fatal != "" {
-				c.Note += " HARNESS: " + w.fatal
-			}
-			c.Oracle = w.oracle
-			for f := range w.feat {
-				c.Feat = append(c.Feat, f)
-			}
-			cl.Close()
-			sv.Close()
-			results[k] = c
 		}(k, j)
 	}
 	wg.Wait()
